@@ -214,3 +214,9 @@ def replay(chk, path):
     p = os.path.join(chk.work, "replay.txt")
     open(p, "w").write(line)
     run(chk, only_corpus=p)
+
+
+def gen_anchors():
+    """used by setup: (re)generate coq/gen/Anchors_C19.v from /repo"""
+    from props import c19_anchors
+    return c19_anchors.run()
